@@ -42,7 +42,8 @@ structure Out (S : Type) where
 def stepOnce (a : Alg S) (c : Ctl) (s : S) (k : Nat) : Ctl × S × Option Msg × Bool :=
   let tpre := a.term s c.pre
   let s' := a.step s k
-  let d : Delta := { dEvals := a.nlog s' - a.nlog s }
+  -- `generations = len(stepmon) - 1`: the first `_Step` (initial evaluation) writes record 0 and leaves generations at 0
+  let d : Delta := { dEvals := a.nlog s' - a.nlog s, dGens := if c.nstep = 0 then 0 else 1 }
   let tpost := a.term s' (c.after d)
   let r := c.step tpre tpost d
   (r.1, (if r.2.2 = true then s' else s), r.2.1, r.2.2)
